@@ -553,11 +553,22 @@ func (x *batchExec) build() flyt.Node {
 		opts = append(opts, flyt.WithBatchErrorHandling(sc.Mode == 1))
 	}
 	b := newBatchNode(opts)
-	needCN := sc.HasFb || (sc.PrepForm != PFResults)
+	// A fallback for batch items: through a documented builder method if this implementation has
+	// one (today it has none), otherwise through the embedded CustomNode.
+	fbByBuilder := false
+	if sc.HasFb {
+		for _, name := range []string{"WithExecFallbackFunc", "WithFallbackFunc", "WithExecFallback"} {
+			if nb, ok := setFallback(b, name, x.fbCb); ok {
+				b, fbByBuilder = nb, true
+				break
+			}
+		}
+	}
+	needCN := (sc.HasFb && !fbByBuilder) || (sc.PrepForm != PFResults)
 	if needCN {
 		var cnOpts []any
 		cnOpts = append(cnOpts, opts...) // the replacement CustomNode carries its own BaseNode
-		if sc.HasFb {
+		if sc.HasFb && !fbByBuilder {
 			cnOpts = append(cnOpts, flyt.WithExecFallbackFunc(x.fbCb))
 		}
 		switch sc.PrepForm {
@@ -722,7 +733,7 @@ func (x *batchExec) run() batchRun {
 		br.Finished = x.now()
 	}()
 	step := 0
-	qpRetried := false
+	qpRetried := 0
 	for {
 		synctest.Wait()
 		select {
@@ -749,12 +760,12 @@ func (x *batchExec) run() batchRun {
 		np := len(x.parked)
 		x.mu.Unlock()
 		if x.qp != nil && x.qpFail == "" {
-			if f := x.qp(x); f != "" && !qpRetried {
-				// the implementation may be parked on a timer of its own (lazily started workers,
-				// admission by polling): let a second of virtual time pass - no gate is opened
-				// meanwhile - and look again
-				qpRetried = true
-				time.Sleep(time.Second)
+			if f := x.qp(x); f != "" && qpRetried < 8 {
+				// the implementation may be parked on a timer of its own (workers started lazily or
+				// one by one, admission by polling): let virtual time pass - 1 s, 2 s, ... 128 s, no
+				// gate is opened meanwhile - and look again
+				time.Sleep(time.Second << qpRetried)
+				qpRetried++
 				continue
 			} else if f != "" {
 				x.qpFail = f
@@ -801,7 +812,7 @@ func (x *batchExec) run() batchRun {
 		x.releases = append(x.releases, fmt.Sprintf("i%d.a%d", p.item, p.attempt))
 		x.mu.Unlock()
 		step++
-		qpRetried = false
+		qpRetried = 0
 		close(p.gate)
 	}
 }
